@@ -21,7 +21,7 @@ def simple_constraint(draw):
                     atom=dict(prefix=None, symbol=draw(st.sampled_from(['C', 'H', 'O', '$', 'X'])), suffix=draw(st.sampled_from([None, '?']))),
                     bond=draw(st.sampled_from([None, None, 'double', 'any', 'strong', 'single'])))
     if kind == 'nring':
-        return dict(kind='nring', neg=False, cn=[draw(st.sampled_from([None, '>='])), draw(st.integers(0, 1))])
+        return dict(kind='nring', neg=False, cn=[draw(st.sampled_from([None, '>='])), draw(st.integers(0, 2))])
     if kind == 'ringsize':
         return dict(kind='ringsize', neg=False, cn=[draw(st.sampled_from([None, '<=', '>'])), draw(st.integers(3, 6))])
     return dict(kind='radical', neg=False, cn=[None, draw(st.integers(0, 1))])
@@ -77,7 +77,7 @@ def scheme_case(draw):
     # a remap target must not be a remap source (chain-free, as C14 requires of shipped schemes)
     for k in list(remaps):
         remaps[k] = [[co, t] for co, t in remaps[k] if t not in remaps] or [[1, 'R1']]
-    mols = [draw(st.one_of(molgen.gas(6, stereo=False), molgen.special(), molgen.radical(5))) for _ in range(4)]
+    mols = [draw(st.one_of(molgen.gas(6, stereo=False), molgen.special(), molgen.radical(5), molgen.polycyclic())) for _ in range(4)]
     return dict(kind='synthetic', patterns=pats, descs=descs, remaps=remaps, molecules=mols, layout=draw(ringast.layout()))
 
 
